@@ -8,7 +8,7 @@ RULE = ("differentiable programs: 2-3 leaf tensors (any format mix, 1..3 modes) 
         "factors; an expression tree over {+,-,*,unary -, scalar *,/ scalar, scalar +, slicing/indexing} followed by a scalar head "
         "(sum, mean, dot with another expression, normsq, norm, var, dist, the README loss norm(t[:k]-t[-k:])); the gradient of the "
         "compressed path w.r.t. every parameter is compared with the gradient of the same scalar computed on .torch() arrays "
-        "(autograd on both sides, 1e-8 scaled); results must not be detached (requires_grad / grad_fn present). Model correspondence: "
+        "(autograd on both sides, 1e-8 scaled); a stream of README-style losses between two windows t[:k], t[-k:] of ONE model where either side may be a constant (detached) alias sharing its memory; results must not be detached (requires_grad / grad_fn present). Model correspondence: "
         "the same programs are run through the Lean model over dual numbers (tangents on the parameters); the directional derivative "
         "of a random linear functional of the result cores is compared with autograd's (exact rationals vs float64, 1e-8). "
         "distinct = (program, format signatures, which parameters carry gradients)")
@@ -58,6 +58,18 @@ def cases(rng, tier):
         f32 = 0 if rng.random() < 0.12 else None       # a single-precision model (leaf 0) against double-precision data
         out.append({"f32": f32, "leaves": leaves, "masks": masks, "prog": gen_prog(rng, len(leaves), rng.randint(1, 3), N, shape),
                     "head": rng.choice(HEADS), "prog2": gen_prog(rng, len(leaves), 1, N, shape), "seed": rng.randrange(1 << 30)})
+    # README-style losses between two windows of ONE model, one side possibly a constant (detached) alias of it: the operands share memory
+    for _ in range({"quick": 60, "thorough": 400, "search": 150}[tier]):
+        N = rng.choice([1, 2, 2, 3])
+        shape = [rng.randint(3, 5)] + [rng.randint(2, 4) for _ in range(N - 1)]
+        t = gen_tensor(rng, shape, rmax=2, stream="float")
+        k = rng.randint(1, shape[0] - 1)
+        side = lambda which: [which, k, ["const", ["leaf", 0]] if rng.random() < 0.4 else ["leaf", 0]]
+        prog = [rng.choice(["sub", "sub", "sub", "add", "mul"]), side("lo"), side("hi")]
+        if rng.random() < 0.3:
+            prog = [rng.choice(["smul", "sadd"]), rng.choice([2.0, -1.5]), prog]
+        out.append({"f32": None, "alias": True, "leaves": [t.to_json()], "masks": [[[True] * N, [rng.random() < 0.7 for _ in range(N)]]],
+                    "prog": prog, "head": rng.choice(["norm", "norm", "normsq", "sum", "var"]), "prog2": prog, "seed": rng.randrange(1 << 30)})
     # genuinely small tensors (entries 1e-9 … 1e-22, no cancellation): the square-root heads have scale-free gradients x/‖x‖, which a
     # floor or clamp on the squared norm would silently replace by 0
     for _ in range({"quick": 40, "thorough": 250, "search": 100}[tier]):
@@ -82,8 +94,8 @@ def ev(tree, L, ops):
         return ops[t](ev(tree[1], L, ops), ev(tree[2], L, ops))
     if t == "neg":
         return ops["neg"](ev(tree[1], L, ops))
-    if t == "flip0":
-        return ops["flip0"](ev(tree[1], L, ops))
+    if t in ("flip0", "const"):
+        return ops[t](ev(tree[1], L, ops))
     if t in ("tsadd", "tsmul"):
         c = tree[2] * ops[tree[1]](ev(tree[3], L, ops))
         return ops["sadd" if t == "tsadd" else "smul"](c, ev(tree[4], L, ops))
@@ -93,7 +105,11 @@ def ev(tree, L, ops):
 COMP = {"add": lambda a, b: a + b, "sub": lambda a, b: a - b, "mul": lambda a, b: a * b, "neg": lambda a: -a,
         "smul": lambda c, a: a * c, "rsmul": lambda c, a: c * a, "div": lambda c, a: a / c, "sadd": lambda c, a: a + c,
         "ssub": lambda c, a: a - c, "flip0": lambda a: a[0:a.shape[0]]}
+COMP.update({"lo": lambda k, a: a[:k], "hi": lambda k, a: a[-k:]})
 DENSE = dict(COMP)
+# a constant alias of a model: the same numbers (the same memory), outside the graph — `target = tn.Tensor([c.detach() for c in t.cores], ...)`
+COMP["const"] = lambda a: tn.Tensor([c.detach() for c in a.cores], Us=[None if U is None else U.detach() for U in a.Us])
+DENSE["const"] = lambda x: x.detach()
 COMP.update({"tsum": lambda a: tn.sum(a), "tmean": lambda a: tn.mean(a), "tnormsq": lambda a: tn.normsq(a)})
 DENSE.update({"tsum": lambda x: x.sum(), "tmean": lambda x: x.mean(), "tnormsq": lambda x: (x * x).sum()})
 
@@ -237,6 +253,8 @@ def run_case(ctx, case):
         return
     if mixed:
         ctx.count("model skipped: mixed precision (oracle only)"); return
+    if case.get("alias"):
+        ctx.count("model skipped: windows / constant alias of one model (oracle only)"); return
     if "'ts" in repr(case["prog"]):
         ctx.count("model skipped: tensor-valued scalar in the program (oracle only)"); return
     # ---- model over dual numbers: tangents on the parameters, directional derivative of <C, cores(result)>
